@@ -1699,8 +1699,24 @@ where
           }
         }
       }
-      // Validate that the CBOR value matches the target type before applying control operators
-      if is_ident_string_data_type(self.state.cddl, target_ident)
+      // Validate that the CBOR value matches the target type before applying control operators.
+      // A rule that is a choice of several classes (`r = nint / tstr`) answers
+      // yes to more than one of the class tests below, so for a rule of the
+      // document the value is only at fault when it is not an instance of the
+      // rule itself
+      let is_instance_of_target_rule = matches!(lookup_ident(target_ident.ident), Token::IDENT(..))
+        && rule_from_ident(self.state.cddl, target_ident).is_some()
+        && {
+          let mut probe = self.clone();
+          probe.errors.clear();
+          probe.state.ctrl = None;
+          probe.visit_identifier(target_ident)?;
+          probe.errors.is_empty()
+        };
+
+      if is_instance_of_target_rule {
+        // nothing to reject: the control operator is applied below
+      } else if is_ident_string_data_type(self.state.cddl, target_ident)
         && !matches!(self.cbor, Value::Text(_))
       {
         self.add_error(format!("expected type tstr, got {:?}", self.cbor));
